@@ -6,7 +6,7 @@
 From Coq Require Import List ZArith Bool.
 From Coq Require Floats.
 From Coq Require Import Reals.
-From LN Require Import C07_Defs C07_Statements C07_Proofs C07_Real.
+From LN Require Import C07_Defs C07_Statements C07_Proofs C07_MT C07_CG C07_Real.
 Import ListNotations.
 Import PrimFloat.PrimFloatNotations.   (* notations only: the primitives print as PrimFloat.* in Print Assumptions *)
 Local Open Scope float_scope.
@@ -114,6 +114,140 @@ Theorem C07_real_meaning_wolfe : forall p0 p c2,
   has_wolfe p0 p c2 = true -> (rnd (R_of c2 * R_of (pg p0)) <= R_of (pg p))%R.
 Proof. exact wolfe_real. Qed.
 Print Assumptions C07_real_meaning_wolfe.
+
+(* ---------- More-Thuente: WHEN does a reported success carry the strong Wolfe conditions? ----------
+   `rx r = XMT m`: m are the locals of do_get (brackt, stmin, stmax, ...) at the `return {true, stp}`; the five disjuncts
+   are the five tests of morethuente.cpp (translated from the source on every run), in the order: convergence test,
+   then the four "no further progress" exits. ftest = finit + stp * (ftol * ginit) is More-Thuente's own sufficient
+   decrease bound (NOT state.cpp's f0 + (t * c1) * dg0: see C07_morethuente_state_armijo_not_implied). *)
+Theorem C07_morethuente_success_cases : forall phi prm p0 t0,
+  let r := ls_get phi prm p0 MoreThuente t0 in
+  ok r = true ->
+  exists m, rx r = XMT m /\
+  let stp := rt r in
+  let f := pf (cur (rs r)) in
+  let g := pg (cur (rs r)) in
+  let gtest := c1 prm * pg p0 in
+  let ftest := pf p0 + stp * gtest in
+  (* converged: sufficient decrease and |dg| <= c2 * (-dg0) *)
+  ((f <=? ftest) = true /\ (abs g <=? c2 prm * - pg p0) = true) \/
+  (* rounding errors prevent progress: the trial step left the bracket *)
+  (m_brackt m = true /\ ((stp <=? m_stmin m) = true \/ (m_stmax m <=? stp) = true)) \/
+  (* the bracket collapsed: (stmax - stmin) <= xtol * stmax *)
+  (m_brackt m = true /\ (m_stmax m - m_stmin m <=? eps0 * m_stmax m) = true) \/
+  (* the step is at stpmax, with sufficient decrease and dg <= gtest *)
+  ((stpmax <=? stp) = true /\ (f <=? ftest) = true /\ (g <=? gtest) = true) \/
+  (* the step is at stpmin, without sufficient decrease or with dg >= gtest *)
+  ((stp <=? stpmin) = true /\ ((ftest <? f) = true \/ (gtest <=? g) = true)).
+Proof. exact ls_get_mt_cases. Qed.
+Print Assumptions C07_morethuente_success_cases.
+
+(* corollary: when none of the four early-exit tests holds at the returned iterate, the success carries More-Thuente's
+   sufficient decrease and the strong Wolfe condition exactly as state.cpp's has_strong_wolfe evaluates it *)
+Theorem C07_morethuente_strong_wolfe_unless_early_exit : forall phi prm p0 t0,
+  let r := ls_get phi prm p0 MoreThuente t0 in
+  ok r = true ->
+  forall m, rx r = XMT m ->
+  let stp := rt r in
+  let f := pf (cur (rs r)) in
+  let g := pg (cur (rs r)) in
+  let gtest := c1 prm * pg p0 in
+  let ftest := pf p0 + stp * gtest in
+  (m_brackt m && ((stp <=? m_stmin m) || (m_stmax m <=? stp))) = false ->
+  (m_brackt m && (m_stmax m - m_stmin m <=? eps0 * m_stmax m)) = false ->
+  ((stpmax <=? stp) && (f <=? ftest) && (g <=? gtest)) = false ->
+  ((stp <=? stpmin) && ((ftest <? f) || (gtest <=? g))) = false ->
+  (f <=? ftest) = true /\ (abs g <=? c2 prm * abs (pg p0)) = true.
+Proof. exact ls_get_mt_strong_wolfe_explicit. Qed.
+Print Assumptions C07_morethuente_strong_wolfe_unless_early_exit.
+
+(* the third disjunct never decides alone: whenever the collapsed-bracket test holds at a successful return, the rounding
+   test -- which precedes it in the source -- holds as well (the iteration that detected the collapse set stp = stx, an
+   end of [stmin, stmax]); the second `return {true, stp}` of morethuente.cpp is dead code *)
+Theorem C07_morethuente_collapsed_exit_never_taken : forall phi prm p0 t0,
+  let r := ls_get phi prm p0 MoreThuente t0 in
+  ok r = true ->
+  forall m, rx r = XMT m ->
+  (m_brackt m && (m_stmax m - m_stmin m <=? eps0 * m_stmax m)) = true ->
+  (m_brackt m && ((rt r <=? m_stmin m) || (m_stmax m <=? rt r))) = true.
+Proof. exact ls_get_mt_collapsed_never_first. Qed.
+Print Assumptions C07_morethuente_collapsed_exit_never_taken.
+
+(* every disjunct is inhabited (flags = the five tests in SOURCE order: rounding, collapsed, stpmax, stpmin, converged):
+   (t-1)^2 converges; |t - 1/2| ends with a collapsed bracket (rounding and collapsed hold together: after the iteration
+   forced stp = stx the rounding test, which comes first in the source, is the one that returns) without strong Wolfe;
+   1 - t ends at stpmax without strong Wolfe; a jump at the origin ends at stpmin with f > f0 *)
+Theorem C07_morethuente_exits_reachable :
+  (let r := ls_get phi_parab (prm_default 128) p0_parab MoreThuente t_eighth in
+   ok r = true /\ mt_exit_flags (prm_default 128) p0_parab r = Some [false; false; false; false; true]) /\
+  (let r := ls_get phi_vee (prm_default 128) p0_vee MoreThuente fone in
+   ok r = true /\ mt_exit_flags (prm_default 128) p0_vee r = Some [true; true; false; false; false] /\
+   has_strong_wolfe p0_vee (cur (rs r)) (c2 (prm_default 128)) = false) /\
+  (let r := ls_get phi_linear (prm_default 128) p0_slope MoreThuente fone in
+   ok r = true /\ mt_exit_flags (prm_default 128) p0_slope r = Some [false; false; true; false; false] /\
+   has_strong_wolfe p0_slope (cur (rs r)) (c2 (prm_default 128)) = false) /\
+  (let r := ls_get phi_jump (prm_default 128) p0_slope MoreThuente fone in
+   ok r = true /\ mt_exit_flags (prm_default 128) p0_slope r = Some [false; false; false; true; false] /\
+   has_armijo p0_slope (cur (rs r)) (rt r) (c1 (prm_default 128)) = false /\ (pf p0_slope <? pf (cur (rs r))) = true).
+Proof. exact s_mt_exits_reachable. Qed.
+Print Assumptions C07_morethuente_exits_reachable.
+
+(* the convergence test does NOT imply state.cpp's has_armijo: stp * (c1 * dg0) and (stp * c1) * dg0 round differently
+   (f0 = 0, dg0 = -3, t = 13/1024, f = t * (c1 * dg0): converged, has_armijo false by one ulp) *)
+Theorem C07_morethuente_state_armijo_not_implied :
+  let r := ls_get phi_assoc (prm_default 128) p0_assoc MoreThuente t_assoc in
+  ok r = true /\ mt_exit_flags (prm_default 128) p0_assoc r = Some [false; false; false; false; true] /\
+  has_armijo p0_assoc (cur (rs r)) (rt r) (c1 (prm_default 128)) = false.
+Proof. exact s_mt_state_armijo_not_implied. Qed.
+Print Assumptions C07_morethuente_state_armijo_not_implied.
+
+(* ---------- CG_DESCENT: a success is `return {state.valid(), t}` after interval_t::done(...) = true ----------
+   `rx r = XCG iv bracketed`: the interval [a, b] and the `bracketed` argument of that call. epsilon_k =
+   epsilon * |f(x0)| as make_params computes it. The three disjuncts are done's tests (translated from cgdescent.cpp):
+   Wolfe (T1 of Hager-Zhang) or approximate Wolfe (T2) at a step inside [a.t, b.t] -- both pairs are tried on every
+   call, this implementation has no permanent switch to the approximate conditions --, or "bracketing failed": after
+   bracket(), a.f > f0 + epsilon_k or b.g < 0, in which case NO acceptance condition was evaluated. *)
+Theorem C07_cgdescent_success_cases : forall phi prm p0 t0,
+  let r := ls_get phi prm p0 CGDescent t0 in
+  ok r = true ->
+  let epsk := cg_epsilon prm * abs (pf p0) in
+  let c := cur (rs r) in
+  let t := rt r in
+  pv c = true /\
+  exists iv bracketed, rx r = XCG iv bracketed /\ i_s iv = rs r /\ i_step iv = t /\
+  (((t <? st_t (i_a iv)) = false /\ (st_t (i_b iv) <? t) = false /\
+    (pf c <=? pf p0 + t * c1 prm * pg p0) = true /\ (c2 prm * pg p0 <=? pg c) = true) \/
+   ((t <? st_t (i_a iv)) = false /\ (st_t (i_b iv) <? t) = false /\
+    (pf c <=? pf p0 + epsk) = true /\
+    ((pg c <=? (ftwo * c1 prm - fone) * pg p0) && (c2 prm * pg p0 <=? pg c)) = true) \/
+   (bracketed = true /\ ((pf p0 + epsk <? st_f (i_a iv)) = true \/ (st_g (i_b iv) <? fzero) = true))).
+Proof. exact ls_get_cg_cases. Qed.
+Print Assumptions C07_cgdescent_success_cases.
+
+(* in the third disjunct the sub-case a.f > f0 + epsilon_k never occurs: `a` only holds the origin or points that passed
+   has_approx_armijo. The hypothesis `(f0 + epsilon_k < f0) = false` is a fact about rounding (epsilon_k >= 0 or NaN), true
+   for every double f0; it is stated, not proved. Hence "bracketing failed" successes are exactly: b.g < 0 after bracket() *)
+Theorem C07_cgdescent_bracketing_failed_lower_end_ok : forall phi prm p0,
+  (pf p0 + cg_epsilon prm * abs (pf p0) <? pf p0) = false ->
+  forall t0 iv bracketed,
+  rx (ls_get phi prm p0 CGDescent t0) = XCG iv bracketed ->
+  (pf p0 + cg_epsilon prm * abs (pf p0) <? st_f (i_a iv)) = false.
+Proof. exact ls_get_cg_ainv. Qed.
+Print Assumptions C07_cgdescent_bracketing_failed_lower_end_ok.
+
+(* every disjunct is inhabited (flags = [bracketed; a.f > f0 + epsilon_k; b.g < 0; step inside [a.t, b.t]; armijo; wolfe;
+   approx armijo; approx wolfe]): (t-1)^2 ends with Wolfe; a plateau 2^-24 above f0 is accepted by the approximate
+   conditions only (no decrease); on 1 - t bracket() uses up max_iterations and the search "succeeds" at
+   t = 5^128 outside [a.t, b.t] with neither Wolfe nor approximate Wolfe *)
+Theorem C07_cgdescent_exits_reachable :
+  (let r := ls_get phi_parab (prm_default 128) p0_parab CGDescent t_eighth in
+   ok r = true /\ cg_exit_flags (prm_default 128) p0_parab r = Some [true; false; false; true; true; true; true; true]) /\
+  (let r := ls_get phi_plateau (prm_default 128) p0_slope CGDescent fone in
+   ok r = true /\ cg_exit_flags (prm_default 128) p0_slope r = Some [false; false; false; true; false; true; true; true]) /\
+  (let r := ls_get phi_linear (prm_default 128) p0_slope CGDescent fone in
+   ok r = true /\ cg_exit_flags (prm_default 128) p0_slope r = Some [true; false; true; false; true; false; true; false]).
+Proof. exact s_cg_exits_reachable. Qed.
+Print Assumptions C07_cgdescent_exits_reachable.
 
 (* ---------- statements that are FALSE of the faithful model (kept visible in C07_Statements.v; searched on the
    implementation) ---------- *)
